@@ -1,0 +1,69 @@
+//! Verification hooks (cargo feature `verif`, off by default).
+//!
+//! Purely additive: re-exports the crate's own packet codec and replay window so external
+//! checkers can read and build datagrams without a second implementation of the wire format,
+//! and defines read-only snapshots of the server and client state.
+
+use std::net::SocketAddr;
+use std::time::Duration;
+
+pub use crate::packet::{ChallengeToken, Packet, PacketType};
+pub use crate::replay_protection::ReplayProtection;
+pub use crate::token::VerifPrivateToken;
+use crate::{DisconnectReason, NETCODE_KEY_BYTES, NETCODE_USER_DATA_BYTES};
+
+#[derive(Debug, Clone, PartialEq, Eq)]
+pub struct ConnectionSnapshot {
+    pub confirmed: bool,
+    pub client_id: u64,
+    pub connected: bool,
+    pub pending_response: bool,
+    pub send_key: [u8; NETCODE_KEY_BYTES],
+    pub receive_key: [u8; NETCODE_KEY_BYTES],
+    pub user_data: [u8; NETCODE_USER_DATA_BYTES],
+    pub addr: SocketAddr,
+    pub last_packet_received_time: Duration,
+    pub last_packet_send_time: Duration,
+    pub timeout_seconds: i32,
+    pub sequence: u64,
+    pub expire_timestamp: u64,
+    pub replay_most_recent_sequence: u64,
+}
+
+#[derive(Debug, Clone, PartialEq, Eq)]
+pub struct ServerSnapshot {
+    /// one entry per client slot, in slot order
+    pub slots: Vec<Option<ConnectionSnapshot>>,
+    /// half-open sessions, sorted by address
+    pub pending: Vec<ConnectionSnapshot>,
+    pub max_clients: usize,
+    pub challenge_sequence: u64,
+    pub global_sequence: u64,
+    pub current_time: Duration,
+    pub token_entries: usize,
+}
+
+#[derive(Debug, Clone, Copy, PartialEq, Eq)]
+pub enum ClientStateSnapshot {
+    Disconnected(DisconnectReason),
+    SendingConnectionRequest,
+    SendingConnectionResponse,
+    Connected,
+}
+
+#[derive(Debug, Clone, PartialEq, Eq)]
+pub struct ClientSnapshot {
+    pub state: ClientStateSnapshot,
+    pub client_id: u64,
+    pub connect_start_time: Duration,
+    pub last_packet_send_time: Option<Duration>,
+    pub last_packet_received_time: Duration,
+    pub current_time: Duration,
+    pub sequence: u64,
+    pub server_addr: SocketAddr,
+    pub server_addr_index: usize,
+    pub challenge_token_sequence: u64,
+    pub max_clients: u32,
+    pub client_index: u32,
+    pub replay_most_recent_sequence: u64,
+}
